@@ -147,6 +147,11 @@ def bx_expr(node, sym, spec, depth=0):
             else:
                 raise Untranslatable(f"comparison {text[:60]}")
             return (r if isinstance(op, ast.Eq) else f"(!{r})"), "Bool"
+        if {a[1], b[1]} <= {"Nat", "Lit"}:
+            sym_ = {ast.Lt: "<", ast.Gt: ">", ast.LtE: "≤", ast.GtE: "≥"}.get(type(op))
+            if sym_ is None:
+                raise Untranslatable(f"comparison {text[:60]}")
+            return f"(decide ({a[0]} {sym_} {b[0]}))", "Bool"
         x, y = as_e(a), as_e(b)
         if isinstance(op, ast.Lt):
             return f"(E.lt {x} {y})", "Bool"
@@ -534,6 +539,32 @@ def effects(repo, spec):
     return counters, " ++ ".join(eff) if eff else "[]", func.lineno, "; ".join(src)
 
 
+# ---------------------------------------------------------------------------------------------------------------
+# single boolean / float expressions of methods too long to execute as a whole (read like a `formulas.py` entry, but
+# with comparisons and the E reading of floats)
+
+EXPR_SPECS = [
+    # ProximityArchive.add: admission of a candidate as a new entry
+    dict(name="proxNovelEnough", file="ribs/archives/_proximity_archive.py", func="ProximityArchive.add",
+         assign="novel_enough", inputs={"novelty": E_IN("nov"), "self.novelty_threshold": E_IN("thr")},
+         vars=[("nov", "E"), ("thr", "E")], type="Bool"),
+]
+
+
+def expr_spec(repo, spec):
+    tree = ast.parse(open(os.path.join(repo, spec["file"])).read())
+    func = find_function(tree, spec["func"])
+    hits = sorted((n.lineno, n) for n in ast.walk(func) if isinstance(n, ast.Assign) and len(n.targets) == 1
+                  and ast.unparse(n.targets[0]) == spec["assign"])
+    if len(hits) <= spec.get("nth", 0):
+        raise Untranslatable(f"no assignment to {spec['assign']}")
+    node = hits[spec.get("nth", 0)][1]
+    e, t = bx_expr(node.value, dict(spec["inputs"]), dict(spec, _side={}))
+    if t != spec["type"]:
+        raise Untranslatable(f"{spec['assign']} has type {t}, expected {spec['type']}")
+    return e, node.lineno, " ".join(ast.unparse(node).split())
+
+
 FALLBACK = {"Nat": "0", "E": "E.bad", "Bool": "false", "Option E": "none", "Option Nat": "none"}
 
 
@@ -582,6 +613,19 @@ def translate(repo, out_path):
         lines.append("")
         recs.append({"name": spec["prefix"], "file": spec["file"], "func": spec["func"], "line": line, "ok": ok,
                      "why": why, "python": src[:400], "lean": "; ".join(f"{o} := {outs[o][0]}" for o in names)})
+    for spec in EXPR_SPECS:
+        binder = " ".join(f"({v} : {t})" for v, t in spec["vars"])
+        try:
+            e, line, src = expr_spec(repo, spec)
+            ok, why = True, ""
+        except (Untranslatable, SyntaxError, OSError, StopIteration, KeyError, AttributeError) as ex:
+            e, line, src, ok, why = FALLBACK[spec["type"]], 0, "", False, f"{type(ex).__name__}: {ex}"
+        lines.append(f"/-- `{spec['file']}:{spec['func']}`" + (f" line {line}: `{src[:200]}`" if ok else
+                                                                f" -- TRANSLATION FAILED: {why}") + " -/")
+        lines.append(f"def {spec['name']} {binder} : {spec['type']} :=\n  {e}")
+        lines.append("")
+        recs.append({"name": spec["name"], "file": spec["file"], "func": spec["func"], "line": line, "ok": ok,
+                     "why": why, "python": src[:200], "lean": e})
     for spec in EFFECT_SPECS:
         ebind = " ".join(f"({v} : {t})" for v, t in EFFECT_VARS)
         try:
